@@ -576,6 +576,14 @@ func (w *World) Now() uint64 {
 // Deploy deploys an artifact with the committee and Alphabet witnesses.
 func (w *World) Deploy(key string, a *Artifact, data any) *Deployed {
 	d, aer := w.TryDeploy(key, a, data, []Signer{w.Committee, w.Alphabet})
+	if d == nil && !a.Probe && strings.Contains(aer.FaultException, "witness") && Prop() != "C03" &&
+		w.Validator.Hash != w.Alphabet.Hash && w.Validator.Hash != w.Committee.Hash {
+		// (fewer validators than committee members.) That the required witnesses
+		// suffice is C03's rule; the other checks want a world all the same: the
+		// validators' account signs too — a witness nobody asks for changes
+		// nothing where the contracts are right
+		d, aer = w.TryDeploy(key, a, data, []Signer{w.Committee, w.Alphabet, w.Validator})
+	}
 	if d == nil {
 		if !a.Probe && strings.Contains(aer.FaultException, "witness") {
 			// not the simulator's trouble: a repository contract refuses the
